@@ -1,4 +1,4 @@
-PROP = {"engines": [("list", "derived", 2500), ("slist", "derived", 2000), ("array", "derived", 3000), ("deque", "derived", 3000), ("hashtable", "derived", 2000)],
+PROP = {"engines": [("list", "derived", 2500), ("slist", "derived", 2000), ("array", "derived", 3000), ("sized", "derived", 1500), ("deque", "derived", 3000), ("hashtable", "derived", 2000)],
         "level_text": "Coq theorems: subarray / copy_shallow / copy_deep / filter (array), copy_shallow / copy_deep / filter (deque from every layout), get_keys / get_values (hash table) "
                       "produce exactly the selected elements in source order, leave the source state unchanged, and the result satisfies the engine invariant with the source's "
                       "capacity, factor and allocator family - hence, by the engine's refinement theorem, it is a fully usable container that can grow. Independence is tied by "
